@@ -52,6 +52,9 @@ Record metapub := mkMetaPub { mp_topic : string; mp_args : list value; mp_kw : d
 Definition str_prefix_wamp (s : string) : bool := String.prefix "wamp." s.
 
 Definition policy_single := "single".
+(** the invocation policies under which a registration may have several callees *)
+Definition shared_policy (p : string) : bool :=
+  String.eqb p "roundrobin" || String.eqb p "random" || String.eqb p "first" || String.eqb p "last".
 
 (** ** REGISTER *)
 Definition reg_dict (r : registration) : value :=
@@ -95,7 +98,7 @@ Definition register (cfg : config) (d : dealer) (callee : session) (req : N) (op
              if meta then [mkMetaPub t_reg_on_create [vid sid; reg_dict r] [] [];
                            mkMetaPub t_reg_on_register [vid sid; vid id] [] []] else [])
         | Some r =>
-            if String.eqb (reg_policy r) "" || String.eqb (reg_policy r) policy_single
+            if negb (shared_policy (reg_policy r))
                || negb (String.eqb (reg_policy r) invoke) || nmem sid (reg_callees r) then
               (d, [(sid, RError c_REGISTER req [] e_procedure_exists [] [])], [])
             else
